@@ -326,6 +326,22 @@ def _registry_model():
     return pool, var, models, reference
 
 
+def run_set_metrics(P, key, value, overwrite=False, registry=None):
+    """Evaluate Grid.set_metrics on a grid with axes AX, AY whose dataset holds the pool of metric variables."""
+    from ..absint import Evaluator, Obj
+    from ..xmodel import make_grid
+
+    pool, var, models, _ref = _registry_model()
+
+    def make():
+        ds = Obj("Dataset", "grid_ds", (), {"variables": list(pool), "data_vars": list(pool)})
+        g = make_grid(("AX", "AY"), ds=ds)
+        g.attrs["_metrics"] = {k: [var(v) for v in vs] for k, vs in (registry or {}).items()}
+        return dict(self=g, key=key, value=value, overwrite=overwrite)
+
+    return Evaluator(P, method_models=models).run_paths(P.func("grid:Grid.set_metrics"), make)
+
+
 def _constructor_registry(ctx, P):
     from ..absint import Evaluator, Obj, Sym, Unmodelled
     from ..xmodel import dimsym
